@@ -291,3 +291,12 @@ package engine
 //@   ensures result1 == nil && (opts.Type & common.RangeROpen != 0 || opts.Max == nil) ==> sameSlice(result0.upperBound, opts.Max)
 //@   ensures result1 == nil && opts.Type & common.RangeROpen == 0 && opts.Max != nil ==> len(result0.upperBound) == len(opts.Max) + 1 && result0.upperBound[len(opts.Max)] == 0 && (forall i int :: 0 <= i && i < len(opts.Max) ==> result0.upperBound[i] == old(opts.Max[i]))
 //@   modifies *
+
+// range deletion of the in-memory batch: the end key is EXCLUSIVE, as for rocksdb / pebble DeleteRange - every key
+// handed to the index for deletion is strictly below end (partial contract: only this call-site assertion)
+//@ func (wb *memWriteBatch) DeleteRange(start []byte, end []byte)
+//@   opt only=ASSERT
+//@   opt autoloops
+//@   requires wb != nil && wb.db != nil && wb.db.radixMemI != nil && wb.db.radixMemI.memkv != nil
+//@   callassert Delete end == nil || lexLess(arg2, end)
+//@   modifies *
